@@ -8,6 +8,7 @@ def check(ctx):
     rep.floor("tagged Hayson kinds compared (writer table vs reader table)", n, 13)
     nc = hayson.check_casts(ctx, rep)
     rep.floor("float casts / serialize_f64 sites in the Hayson writer", nc, 2)
+    hayson.check_float_roundtrip(ctx, rep)
     nv = hayson.check_visitor_methods(ctx, rep)
     nf = fields.check(ctx, rep, {"serde::Serialize"})
     rep.floor("Serialize impls for structs with fields", nf, 12)
